@@ -86,6 +86,7 @@ func VBuildWorld(shape state.VShape) *VWorld {
 	vAssume(sn <= 2)
 	g.ShardsNum = sn
 	g.ShardSizes = map[common.ShardId]uint32{1: vU32("global.shardSize1"), 2: vU32("global.shardSize2")}
+	g.EmptyBlocksByShards = map[common.ShardId][]common.Address{} // never nil: Global.FromBytes / createGlobal always allocate it
 	g.DiscriminationStakeThreshold = vOptNonNegBig("global.discriminationStakeThreshold")
 	g.NextValidationTime = vI64("global.nextValidationTime")
 	st.VPutGlobal(g)
